@@ -152,8 +152,10 @@ class LasWriter:
             )
             restore_needed = True
 
-        self.header.grow(points)
+        # count the points once they are written: if the write fails, the header
+        # written by close() must not advertise points that are not in the file
         self.point_writer.write_points(points)
+        self.header.grow(points)
 
         if restore_needed:
             points.offsets, points.scales = saved_offsets, saved_scales
